@@ -343,14 +343,12 @@ func intersectionStableSorted(a0, a1, b0, b1 Point) (Point, bool) {
 	// Finally we normalize the result, compute the corresponding error, and
 	// check whether the total error is acceptable.
 
-	// TODO(rsned): C++ checks Norm2 > some small amount to prevent precision loss.
-	// xLen2 := x.Norm2()
-	// if xLen2 < math.SmallestNonzeroFloat64 {
-	//         // If x.Norm2() is less than the minimum normalized value of T, xLen might
-	//         // lose precision and the result might fail to satisfy IsUnitLength().
-	//         // TODO(rsned): Implement RobustNormalize().
-	//         return pt, false
-	// }
+	// If x.Norm2() is less than the smallest normalized float64 (0x1p-1022;
+	// math.SmallestNonzeroFloat64 is a denormal), xLen loses precision and the
+	// result is not unit length: leave such inputs to the exact method.
+	if x.Norm2() < 0x1p-1022 {
+		return pt, false
+	}
 
 	xLen := x.Norm()
 	maxError := intersectionError
